@@ -626,7 +626,7 @@ def readAlts (ts : List Tok) : List Tok :=
 inductive BodyClass
   /-- a block with `BlockCheckMode::Default` -/
   | block
-  /-- `unsafe { … }` -/
+  /-- a block with another `BlockCheckMode` (the `unsafe`-block) -/
   | unsafeBlock
   | expr
   deriving DecidableEq, Repr
